@@ -40,7 +40,7 @@ def budget(tier):
 @st.composite
 def join_case(draw):
     nd = draw(st.integers(1, 3))
-    dims = list(draw(st.permutations(gen.NAMES)))[:nd]
+    dims = list(draw(st.permutations(draw(gen.names_pool()))))[:nd]
     square = draw(st.booleans())
     n0 = draw(st.integers(1, 3))
     kinds = [draw(st.sampled_from("ifs")) for _ in dims]
@@ -80,6 +80,9 @@ def join_case(draw):
                         l = list(bl[:-1]) + l[-1:]
                 else:
                     rel, l = draw(gen.related_labels(bl, kind, relation=choice))
+                    if kind == "i" and l and draw(st.integers(0, 3)) == 0:
+                        frac = draw(st.sampled_from([0.0, 0.5, 0.1]))   # an int-labelled axis met by a float-labelled one
+                        l = [x + frac if draw(st.booleans()) else float(x) for x in l]
                 labs.append(l)
         specs.append({"dims": order, "labels": labs, "vk": draw(st.sampled_from("fi")), "base": 50 * k + draw(st.integers(0, 9))})
     keys_kind = draw(st.sampled_from(["default", "int", "str"]))
